@@ -48,6 +48,8 @@ def spell(r, S, k):
 
 
 def valid_filler(r, cls, d, n, floats):
+    if cls == "ART1":
+        return gen.binary_rows(r, n, d, allow_zero=True)
     if cls == "FuzzyART":
         t = gen.float_rows(r, n, d) if floats else gen.grid_rows(r, n, d)
         return gen.cc(t)
@@ -112,7 +114,8 @@ def run(ctx):
                 for t in range(3):
                     Qf = Q.copy()
                     for j in S:
-                        Qf[:, off[j]:off[j + 1]] = (0.5 if t == 0 else valid_filler(r, cls[j], ds[j], nq, floats or t == 2))
+                        Qf[:, off[j]:off[j + 1]] = ((1.0 if cls[j] == "ART1" else 0.5) if t == 0
+                                                    else valid_filler(r, cls[j], ds[j], nq, floats or t == 2))
                     with quiet():
                         preds.append([int(v) for v in f.predict(Qf, skip_channels=list(Ssp))])
                 with quiet():
@@ -210,7 +213,11 @@ def run(ctx):
                 sc = [r.choice([1.0, 4.0, 0.5]) for _ in range(k)]
                 raw = []
                 for j in range(k):
-                    base = gen.grid_rows(r, max(3, nq), ds[j], style="uniform")
+                    if cls[j] == "ART1":      # binary data; its normalisation is the identity
+                        base = gen.binary_rows(r, max(3, nq), ds[j], allow_zero=True)
+                        lo[j], sc[j] = 0.0, 1.0
+                    else:
+                        base = gen.grid_rows(r, max(3, nq), ds[j], style="uniform")
                     base[0, :] = 0.0
                     base[1, :] = 1.0
                     raw.append(lo[j] + sc[j] * base)
@@ -218,7 +225,10 @@ def run(ctx):
                 try:
                     with quiet():
                         P = g.prepare_data([None if j in S else raw[j] for j in range(k)], skip_channels=list(Ssp))
-                        g.validate_data(P)
+                        if all(cls[j] != "ART1" for j in S):   # the 0.5 filler is not binary: see the final report
+                            g.validate_data(P)
+                        else:
+                            cov.hit("join-filler-invalid-for-skipped-ART1(observed)")
                         R = g.restore_data(P, skip_channels=list(Ssp))
                     okp = len(R) == k - len(S) and all(
                         np.allclose(a, raw[j], rtol=1e-12, atol=1e-12) for a, j in zip(R, [j for j in range(k) if j not in S]))
